@@ -118,6 +118,20 @@ func vstubCallTypeName(ext *protoimpl.ExtensionInfo) string {
 	return "unknown-extension"
 }
 
+type vExtTypeDesc struct {
+	protoreflect.ExtensionTypeDescriptor
+	name protoreflect.FullName
+}
+
+func (d *vExtTypeDesc) FullName() protoreflect.FullName { return d.name }
+
+// (used by optionErrorf to name the option in its diagnostic)
+//
+//verif:stub (*google.golang.org/protobuf/internal/impl.ExtensionInfo).TypeDescriptor
+func vstubTypeDescriptor(xi *protoimpl.ExtensionInfo) protoreflect.ExtensionTypeDescriptor {
+	return &vExtTypeDesc{name: protoreflect.FullName("gorums." + vstubCallTypeName(xi))}
+}
+
 //verif:stub (*google.golang.org/protobuf/compiler/protogen.GeneratedFile).QualifiedGoIdent
 func vstubQualifiedGoIdent(g *protogen.GeneratedFile, ident protogen.GoIdent) string {
 	return "pkg." + ident.GoName
